@@ -106,8 +106,10 @@ class PythonTranslator(ASTTranslator):
         return 'if %s' % node.test.src
     def postExpr(translator, node):
         return node.value.src
+    @priority(15)
     def postIfExp(translator, node):
         return '%s if %s else %s' % (node.body.src, node.test.src, node.orelse.src)
+    @priority(16)
     def postLambda(translator, node):
         return 'lambda %s: %s' % (node.args.src, node.body.src)
     def postarguments(translator, node):
